@@ -44,6 +44,11 @@ type Report struct {
 	// Internal trouble (nondeterminism, unsound abstraction): exit 3.
 	Distrust []string `json:"distrust"`
 
+	// StateHashes (8 bytes per visited state) go to <out>.states so that the
+	// orchestrator can count DISTINCT states across workers that re-discover
+	// shared states from different roots.
+	StateHashes []byte `json:"-"`
+
 	seenViol map[string]bool
 }
 
@@ -96,6 +101,11 @@ func (r *Report) Write(path string) {
 	}
 	if err := os.WriteFile(path, b, 0o644); err != nil {
 		panic(err)
+	}
+	if len(r.StateHashes) > 0 {
+		if err := os.WriteFile(path+".states", r.StateHashes, 0o644); err != nil {
+			panic(err)
+		}
 	}
 }
 
